@@ -1,5 +1,6 @@
 import GoRes.Model.StoreMap
 import GoRes.Lemmas.StoreMap
+import GoRes.Lemmas.Txn
 /-! # C12 — acknowledged writes survive a crash; Init seeds once; indexes rebuild
 (partial: BadgerDB's own atomicity and durability of one `Update` transaction, and the OS, are
 trusted; the crash harness kills a real process at the instrumented points and compares the
@@ -69,7 +70,62 @@ theorem rebuild_exact (idxs : List (Idx V)) (vals : List (Bytes × V)) (db : DB)
   rw [List.nil_append] at h
   exact h
 
+/-! ## Init against concurrent writers (`Model/Txn.lean`: BadgerDB's optimistic transactions)
+
+`others` is any sequence of writes (creates, updates, deletes of any ids, each acknowledged) that
+commit while Init's transaction is open — between its reads and its commit. -/
+
+/-- **a failed Init changes nothing and notifies nobody** (all-or-nothing, never half-seeding) -/
+theorem init_failed_inert (db : Txn.DB V) (marker : Txn.Key) (mark : V) (seeds : List (Txn.Key × V))
+    (others : List (Txn.Key × Option V))
+    (h : (Txn.initRun db marker mark seeds others).2.1 = false) :
+    (Txn.initRun db marker mark seeds others).1.vers = (db.putAll others).vers ∧
+    (Txn.initRun db marker mark seeds others).2.2 = [] := by
+  unfold Txn.initRun at *
+  cases hp : Txn.initProg db marker mark seeds with
+  | none => rw [hp] at h; cases h
+  | some tc =>
+    obtain ⟨t, created⟩ := tc
+    rw [hp] at h
+    simp only [] at h ⊢
+    cases hc : Txn.commit (db.putAll others) t with
+    | none => exact ⟨rfl, rfl⟩
+    | some db' => rw [hc] at h; cases h
+
+/-- **Init never overwrites an acknowledged write**: whatever was committed while its transaction
+was open is still there afterwards, whether Init succeeded or not -/
+theorem init_keeps_concurrent_writes (db : Txn.DB V) (hw : Txn.WF db) (marker : Txn.Key) (mark : V)
+    (seeds : List (Txn.Key × V)) (others : List (Txn.Key × Option V)) :
+    ∀ k ∈ others.map (·.1), (Txn.initRun db marker mark seeds others).1.get k = (db.putAll others).get k :=
+  fun k hk => Txn.initRun_keeps db hw marker mark seeds others k hk
+
+/-- **a successful Init is an Init that ran alone at its commit point** (so everything proved about
+the sequential `initOnce` applies to it): same database, same seeds reported to the listeners -/
+theorem init_serializable (db : Txn.DB V) (hw : Txn.WF db) (marker : Txn.Key) (mark : V)
+    (seeds : List (Txn.Key × V)) (others : List (Txn.Key × Option V)) (hm : marker ∉ others.map (·.1))
+    (hok : (Txn.initRun db marker mark seeds others).2.1 = true) :
+    Txn.initRun db marker mark seeds others = Txn.initAlone (db.putAll others) marker mark seeds :=
+  Txn.initRun_serializable db hw marker mark seeds others hm hok
+
+/-- why Init must look its seed ids up *through its transaction*: the variant that checks existence in
+a separate read-only view commits over a Create that was acknowledged meanwhile -/
+theorem blind_lookup_loses_a_write :
+    let db : Txn.DB Nat := {}
+    let r := Txn.initRunBlind db [0] 1 [([7], 100)] [([7], some 55)]
+    r.2.1 = true ∧ r.1.get [7] = some 100 ∧ (db.putAll [([7], some 55)]).get [7] = some 55 := by
+  decide
+
 /-! ## non-vacuity -/
+-- the same history with the real Init: the Create of id [7] is acknowledged, Init conflicts, nothing is seeded
+example : let db : Txn.DB Nat := {}
+    let r := Txn.initRun db [0] 1 [([7], 100), ([8], 200)] [([7], some 55)]
+    r.2.1 = false ∧ r.1.get [7] = some 55 ∧ r.1.get [8] = none ∧ r.1.get [0] = none := by decide
+-- no interference: both seeds and the marker are written, the listeners hear of both
+example : let db : Txn.DB Nat := {}
+    let r := Txn.initRun db [0] 1 [([7], 100), ([8], 200)] [([9], some 5)]
+    r.2.1 = true ∧ r.1.get [7] = some 100 ∧ r.1.get [8] = some 200 ∧ r.1.get [0] = some 1 ∧ r.1.get [9] = some 5 ∧
+    r.2.2 = [([7], 100), ([8], 200)] := by decide
+
 example : (initOnce [([1], 5)] ({ vals := [], marker := false } : Disk Nat)).vals = [([1], 5)] := by decide
 example : (commit (commit (initOnce [([1], 5)] ({} : Disk Nat)) (.put [1] none)) (.init [([1], 5)])).vals = [] := by decide
 
